@@ -74,7 +74,8 @@ class Exec(ExprMixin, HeapMixin, StmtMixin, CallMixin, BuiltinMixin):
         from .contracts import split_unit
         self.unit_base, self.instance = split_unit(unit)
         for k, v in self.instance.items():
-            self.extra_globals[k] = V(INT, I(v))
+            if isinstance(v, int):
+                self.extra_globals[k] = V(INT, I(v))
 
     # ------------------------------------------------------------------ utilities
     def src(self, node) -> str:
@@ -213,7 +214,14 @@ class Exec(ExprMixin, HeapMixin, StmtMixin, CallMixin, BuiltinMixin):
         for k, v in st.locals.items():
             if k not in o.locals:
                 o.locals[k] = v
-        return self.ev(e.args[0], o)
+        r = self.ev(e.args[0], o)
+        rt = r.t.inner if isinstance(r.t, TOpt) else r.t
+        if isinstance(rt, (TList, TDict, TSet)):
+            # a mutable container named by old(...) denotes its *pre-state content*: later reads through this
+            # value use the pre-state heap (the run-time reading evaluates old() on a deep copy)
+            r = V(r.t, r.z)
+            r._snap = o
+        return r
 
     def spec_implies(self, e, st):
         a = self.truth(self.ev(e.args[0], st), st)
@@ -416,44 +424,69 @@ class Exec(ExprMixin, HeapMixin, StmtMixin, CallMixin, BuiltinMixin):
 
     def spec_all_in(self, e, st):
         """all_in(container, lambda x: P): every element of a set / key of a dict / item of a list satisfies P
-        (an unbounded quantifier in the proof, an exact loop over the container at run time)."""
-        cont = self.ev(e.args[0], st)
-        lam = e.args[1]
-        if isinstance(cont.t, TOpt):
-            cont = opt_get(cont)
-        name = lam.args.args[0].arg
-        saved = st.frames[-1]
-        if isinstance(cont.t, (TSet, TDict)):
-            es = sort_of(cont.t.elt if isinstance(cont.t, TSet) else cont.t.key)
-            et = cont.t.elt if isinstance(cont.t, TSet) else cont.t.key
-            x = z3.Const(fresh_name(name), es)
-            member = self.set_has(st, cont, unbox(x, et)) if isinstance(cont.t, TSet) else self.dict_has(st, cont, unbox(x, et))
+        (an unbounded quantifier in the proof, an exact loop over the container at run time).  Directly nested
+        all_in's are flattened into one quantifier whose trigger is the innermost membership term, so that a
+        membership fact about an inner container instantiates it without the outer one having fired first."""
+        vars_, members, saved_frames = [], [], []
+
+        def descend(call):
+            cont = self.ev(call.args[0], st)
+            lam = call.args[1]
+            if isinstance(cont.t, TOpt):
+                cont = opt_get(cont)
+            name = lam.args.args[0].arg
+            saved = st.frames[-1]
+            saved_frames.append(saved)
             frame = dict(saved)
-            frame[name] = unbox(x, et)
+            if isinstance(cont.t, (TSet, TDict)):
+                et = cont.t.elt if isinstance(cont.t, TSet) else cont.t.key
+                x = z3.Const(fresh_name(name), sort_of(et))
+                xv = unbox(x, et)
+                member = self.set_has(st, cont, xv) if isinstance(cont.t, TSet) else self.dict_has(st, cont, xv)
+                frame[name] = xv
+                pat = member
+            elif isinstance(cont.t, (TList, TSeq, TBytes)):
+                th = theory_of(cont.t)
+                seq = self.list_content(st, cont) if isinstance(cont.t, TList) else cont.z
+                elt = INT if isinstance(cont.t, TBytes) else cont.t.elt
+                x = z3.Int(fresh_name("k"))
+                member = z3.And(0 <= x, x < th.Len(seq))
+                frame[name] = unbox(th.Idx(seq, x), elt)
+                pat = th.Idx(seq, x)
+            else:
+                raise Unsupported(f"all_in over {cont.t}")
             st.frames[-1] = frame
             self.bound_vars.append(x)
-            try:
-                body = self.truth(self.ev(lam.body, st), st)
-            finally:
+            vars_.append(x)
+            members.append((member, pat))
+            inner = lam.body
+            if (isinstance(inner, ast.Call) and isinstance(inner.func, ast.Name) and inner.func.id == "all_in"
+                    and "all_in" not in st.locals):
+                return descend(inner)
+            return self.truth(self.ev(inner, st), st)
+
+        try:
+            body = descend(e)
+        finally:
+            for saved in reversed(saved_frames):
                 st.frames[-1] = saved
-                self.bound_vars.pop()
-            return V(BOOL, z3.ForAll([x], z3.Implies(member, body), patterns=[member]))
-        if isinstance(cont.t, (TList, TSeq, TBytes)):
-            th = theory_of(cont.t)
-            seq = self.list_content(st, cont) if isinstance(cont.t, TList) else cont.z
-            elt = INT if isinstance(cont.t, TBytes) else cont.t.elt
-            k = z3.Int(fresh_name("k"))
-            frame = dict(saved)
-            frame[name] = unbox(th.Idx(seq, k), elt)
-            st.frames[-1] = frame
-            self.bound_vars.append(k)
-            try:
-                body = self.truth(self.ev(lam.body, st), st)
-            finally:
-                st.frames[-1] = saved
-                self.bound_vars.pop()
-            return V(BOOL, z3.ForAll([k], z3.Implies(z3.And(0 <= k, k < th.Len(seq)), body), patterns=[th.Idx(seq, k)]))
-        raise Unsupported(f"all_in over {cont.t}")
+            del self.bound_vars[len(self.bound_vars) - len(vars_):]
+        ids = {v.get_id() for v in vars_}
+
+        def mentions_all(t):
+            seen, found, stack = set(), set(), [t]
+            while stack:
+                u = stack.pop()
+                if u.get_id() in seen:
+                    continue
+                seen.add(u.get_id())
+                if u.get_id() in ids:
+                    found.add(u.get_id())
+                stack.extend(u.children())
+            return found == ids
+        last_pat = members[-1][1]
+        pats = [last_pat] if mentions_all(last_pat) else [z3.MultiPattern(*[p for _m, p in members])]
+        return V(BOOL, z3.ForAll(vars_, z3.Implies(z3.And(*[m for m, _p in members]), body), patterns=pats))
 
     def spec_loop_seq(self, e, st):
         """loop_seq(k): the (snapshot) sequence iterated by for-loop number k of the function under contract."""
@@ -485,6 +518,8 @@ class Exec(ExprMixin, HeapMixin, StmtMixin, CallMixin, BuiltinMixin):
     def spec_same(self, e, st):
         """same(a, b): reference identity / primitive equality without __eq__."""
         a, b = self.ev(e.args[0], st), self.ev(e.args[1], st)
+        if is_ref_type(a.t) and is_ref_type(b.t):
+            return V(BOOL, a.z == b.z)     # reference identity, whatever the static types
         t = join_types(a.t, b.t)
         return V(BOOL, box(coerce(a, t)) == box(coerce(b, t)))
 
@@ -522,7 +557,10 @@ class Exec(ExprMixin, HeapMixin, StmtMixin, CallMixin, BuiltinMixin):
                     out[n] = TObj(ci.name)
                 continue
             if n in c.params:
-                out[n] = self.parse_type(c.params[n])
+                ttxt = c.params[n]
+                for ik, iv in self.instance.items():
+                    ttxt = ttxt.replace("$" + ik, str(iv))     # type parameters of the instance
+                out[n] = self.parse_type(ttxt)
             else:
                 ann = next((x.annotation for x in a.args + a.kwonlyargs if x.arg == n), None)
                 t = self.type_from_annotation(ann)
